@@ -51,7 +51,7 @@ func (c *Chain) dumpModule(name string) map[string][]byte {
 // govTouchParams moves every parameter of the custom modules away from its compiled-in default, key by
 // key, the way passed parameter-change proposals do (changes a validator refuses are skipped): a
 // genesis that carried defaults instead of the live values would otherwise look complete.
-func (c *Chain) govTouchParams() {
+func (c *Chain) govTouchParams(variant int) {
 	for _, m := range customModules {
 		ss, ok := c.A.VerifSubspace(m)
 		if !ok {
@@ -64,6 +64,12 @@ func (c *Chain) govTouchParams() {
 			var str string
 			if _, err := fmt.Sscanf(val, "\"%d\"", &n); err == nil && json.Unmarshal(kv[1], &str) == nil && fmt.Sprint(n) == str {
 				nv = fmt.Sprintf("\"%d\"", n+1)
+				if variant == 2 {
+					// every key has its own validator and a proposal changes one key: combinations that no single
+					// validator sees (a form size below the minimum, a ratio of zero next to a large one) are legitimate
+					// states, and a genesis must carry them too
+					nv = []string{"\"1\"", "\"2\"", fmt.Sprintf("\"%d\"", n*2+3), "\"0\""}[(len(key)+int(n))%4]
+				}
 			} else if json.Unmarshal(kv[1], &str) == nil {
 				switch {
 				case strings.Contains(key, "Deposit") || strings.Contains(key, "Stipend"):
@@ -114,7 +120,7 @@ func genesisRoundTrip(c *Chain, hist int, profile string, out *Emitter) {
 		c.End()
 	}
 	if hist%3 != 0 {
-		c.govTouchParams()
+		c.govTouchParams(hist % 3)
 	}
 	exported, errs := c.exportCustom()
 	before := map[string]map[string][]byte{}
